@@ -22,6 +22,20 @@ type TupleV struct{ V []Value }
 type PtrV struct {
 	Obj  *Object
 	Path []int
+	Limb int     // >0: pointer to limb Limb-1 of an abstracted element (only zero-initialisation is supported)
+	Sub  *SubArr // non-nil: pointer to the N-element sub-array starting at element Off of the array at Path
+}
+
+type SubArr struct {
+	Off *Term
+	N   int
+}
+
+func sameSub(a, b *SubArr) bool {
+	if a == nil || b == nil {
+		return a == nil && b == nil
+	}
+	return a.Off == b.Off && a.N == b.N
 }
 
 // SliceV: window into an ArrayV located at (Obj, Path). Obj==nil means nil slice.
